@@ -699,7 +699,7 @@ pub fn run(ctx: &Ctx) -> (Spec, Report) {
     let spec = Spec {
         level: "exploration",
         rule: format!(
-            "{} hand-written edge classes of the input grammar x 6 languages x single/multi-file through the library pipeline (catch_unwind) and the real binary (exit status, stderr, output presence, CPU time, /proc thread-state diagnosis when the watchdog fires); a file-system fault tree (invalid UTF-8, dangling and cyclic symlinks, directory named *.rs) with and without --follow-links; {} generated programs with hostile type forms and the mutated snapshot corpus through the library; distinct = (workload, class, language, mode, outcome kind)",
+            "{} hand-written edge classes of the input grammar x 6 languages x single/multi-file through the library pipeline (catch_unwind) and the real binary (exit status, stderr, output presence, CPU time, /proc thread-state diagnosis when the watchdog fires); a file-system fault tree (invalid UTF-8, dangling and cyclic symlinks, directory named *.rs) with and without --follow-links; one valid crate reached through 20 spellings of its path (from inside the crate: `src`, `./src`, `.`; from inside src; through `..`; trailing slash; absolute; a crate itself named src) x 5 language/mode cells; {} generated programs with hostile type forms and the mutated snapshot corpus through the library; distinct = (workload, class, language, mode, outcome kind)",
             corp.len(),
             n_lib
         ),
